@@ -120,6 +120,10 @@ struct Collector<'a> {
     stmts: Vec<(usize, usize)>,
     loops: Vec<usize>, // byte offset of the `{` of each loop body, in source order
     errors: Vec<String>,
+    srcmap: Vec<(String, String)>, // R8: iterator source text (normalised) -> model constructor text
+    chains: usize,
+    chain_log: Vec<String>,
+    extra: BTreeMap<&'static str, usize>,
 }
 
 impl<'a> Collector<'a> {
@@ -262,6 +266,234 @@ fn rational(d: &str) -> Option<(String, String)> {
     Some((num.to_string(), den.to_string()))
 }
 
+
+// ---------------------------------------------------------------------------------------------
+// R8: iterator chains are desugared to explicit loops over the real `next` (core's default method bodies)
+enum Adapter<'x> {
+    Map(&'x syn::Expr),
+    Zip(&'x syn::Expr),
+    Skip(&'x syn::Expr),
+    Enumerate,
+    Copied,
+    Cloned,
+}
+
+fn pat_to_lets(p: &syn::Pat, src: &str, counter: &mut usize, derefs: &mut Vec<String>) -> Result<String, String> {
+    match p {
+        syn::Pat::Ident(pi) if pi.subpat.is_none() => {
+            Ok(format!("{}{}", if pi.mutability.is_some() { "mut " } else { "" }, pi.ident))
+        }
+        syn::Pat::Wild(_) => Ok("_".into()),
+        syn::Pat::Reference(r) => match &*r.pat {
+            syn::Pat::Ident(pi) if pi.subpat.is_none() => {
+                let nm = format!("{}__r", pi.ident);
+                derefs.push(format!("let {}{} = *{};", if pi.mutability.is_some() { "mut " } else { "" }, pi.ident, nm));
+                Ok(nm)
+            }
+            other => {
+                *counter += 1;
+                let nm = format!("pr{}__r", counter);
+                let inner = pat_to_lets(other, src, counter, derefs)?;
+                derefs.push(format!("let {inner} = *{nm};"));
+                Ok(nm)
+            }
+        },
+        syn::Pat::Tuple(t) => {
+            let mut parts = Vec::new();
+            for e in t.elems.iter() {
+                parts.push(pat_to_lets(e, src, counter, derefs)?);
+            }
+            Ok(format!("({})", parts.join(", ")))
+        }
+        syn::Pat::Type(t) => pat_to_lets(&t.pat, src, counter, derefs),
+        _ => Err(format!("unsupported closure pattern `{}`", &src[range(p.span()).0..range(p.span()).1])),
+    }
+}
+
+impl<'a> Collector<'a> {
+    fn render(&mut self, e: &syn::Expr) -> String {
+        let (s, en) = range(e.span());
+        let mut sub = Collector { src: self.src, srcmap: self.srcmap.clone(), chains: self.chains, ..Default::default() };
+        sub.visit_expr(e);
+        self.chains = sub.chains;
+        self.errors.extend(sub.errors.drain(..));
+        self.chain_log.extend(sub.chain_log.drain(..));
+        for ed in &sub.edits {
+            *self.extra.entry(ed.rule).or_default() += 1;
+        }
+        for (k2, v2) in sub.extra.iter() {
+            *self.extra.entry(*k2).or_default() += *v2;
+        }
+        match apply_edits(self.src, s, en, sub.edits) {
+            Ok(t) => t,
+            Err(m) => {
+                self.errors.push(m);
+                String::new()
+            }
+        }
+    }
+    fn map_source(&mut self, text: String) -> String {
+        let n = nows(&text);
+        for (from, to) in &self.srcmap {
+            if *from == n {
+                return to.clone();
+            }
+        }
+        text
+    }
+    /// apply a closure literal or a function path to `arg` (an identifier), returning statements binding `out`
+    fn apply_fn(&mut self, f: &syn::Expr, args: &[&str], out: &str) -> String {
+        match f {
+            syn::Expr::Closure(c) => {
+                if c.inputs.len() != args.len() {
+                    self.errors.push("closure arity".into());
+                    return String::new();
+                }
+                let mut lets = String::new();
+                let mut counter = 0;
+                for (p, a) in c.inputs.iter().zip(args.iter()) {
+                    let mut derefs = Vec::new();
+                    match pat_to_lets(p, self.src, &mut counter, &mut derefs) {
+                        Ok(pt) => {
+                            let _ = write!(lets, "let {pt} = {a}; {} ", derefs.join(" "));
+                        }
+                        Err(m) => self.errors.push(m),
+                    }
+                }
+                let body = self.render(&c.body);
+                format!("let {out} = {{ {lets}{body} }};")
+            }
+            other => {
+                let ft = self.render(other);
+                format!("let {out} = {ft}({});", args.join(", "))
+            }
+        }
+    }
+    /// returns true when the method call was a recognised chain and has been rewritten
+    fn try_chain(&mut self, m: &syn::ExprMethodCall) -> bool {
+        let term = m.method.to_string();
+        if !matches!(term.as_str(), "sum" | "fold" | "for_each" | "collect") {
+            return false;
+        }
+        // walk down the receivers
+        let mut adapters: Vec<Adapter> = Vec::new();
+        let mut cur: &syn::Expr = &m.receiver;
+        loop {
+            match cur {
+                syn::Expr::MethodCall(mc) => {
+                    let n = mc.method.to_string();
+                    let a = match (n.as_str(), mc.args.len()) {
+                        ("map", 1) => Adapter::Map(&mc.args[0]),
+                        ("zip", 1) => Adapter::Zip(&mc.args[0]),
+                        ("skip", 1) => Adapter::Skip(&mc.args[0]),
+                        ("enumerate", 0) => Adapter::Enumerate,
+                        ("copied", 0) => Adapter::Copied,
+                        ("cloned", 0) => Adapter::Cloned,
+                        _ => break,
+                    };
+                    adapters.push(a);
+                    cur = &mc.receiver;
+                }
+                _ => break,
+            }
+        }
+        // the source must itself look like an iterator constructor
+        let src_text_raw = &self.src[range(cur.span()).0..range(cur.span()).1];
+        let nsrc = nows(src_text_raw);
+        if !(nsrc.ends_with(".iter()") || nsrc.ends_with(".iter_rev()") || nsrc.ends_with(".iter_mut()") || nsrc.ends_with(".rev()")
+            || nsrc.ends_with(".into_iter()") || self.srcmap.iter().any(|(f, _)| *f == nsrc))
+        {
+            return false;
+        }
+        adapters.reverse();
+        let k = self.chains;
+        self.chains += 1;
+        let src_t = self.render(cur);
+        let src_t = self.map_source(src_t);
+        let mut pre = format!("let mut it{k}__ = {src_t};\n");
+        let mut body = String::new();
+        let _ = writeln!(body, "/*CHAIN-START {k}*/");
+        let _ = writeln!(body, "let item__ = match it{k}__.next() {{ None => break, Some(v__) => v__ }};");
+        let mut zips = 0;
+        let mut item_marked = false;
+        for a in &adapters {
+            if !item_marked && !matches!(a, Adapter::Zip(_) | Adapter::Skip(_)) {
+                let _ = writeln!(body, "/*CHAIN-ITEM {k}*/");
+                item_marked = true;
+            }
+            match a {
+                Adapter::Zip(e) => {
+                    zips += 1;
+                    let zt = self.render(e);
+                    let zt = self.map_source(zt);
+                    let _ = writeln!(pre, "let mut it{k}z{zips}__ = {zt};");
+                    let _ = writeln!(body, "let item__ = match it{k}z{zips}__.next() {{ None => break, Some(v__) => (item__, v__) }};");
+                }
+                Adapter::Skip(e) => {
+                    let nt = self.render(e);
+                    let _ = writeln!(pre, "let mut skipped{k}__: usize = 0;");
+                    let _ = writeln!(body, "if skipped{k}__ < ({nt}) {{ skipped{k}__ = skipped{k}__ + 1; continue; }}");
+                }
+                Adapter::Enumerate => {
+                    let _ = writeln!(pre, "let mut idx{k}__: usize = 0;");
+                    let _ = writeln!(body, "let item__ = (idx{k}__, item__); idx{k}__ = idx{k}__ + 1;");
+                }
+                Adapter::Copied => {
+                    let _ = writeln!(body, "let item__ = *item__;");
+                }
+                Adapter::Cloned => {
+                    let _ = writeln!(body, "let item__ = item__.clone();");
+                }
+                Adapter::Map(f) => {
+                    let st = self.apply_fn(f, &["item__"], "item__");
+                    let _ = writeln!(body, "{st}");
+                }
+            }
+        }
+        if !item_marked {
+            let _ = writeln!(body, "/*CHAIN-ITEM {k}*/");
+        }
+        let result;
+        match term.as_str() {
+            "sum" => {
+                let _ = writeln!(pre, "let mut acc{k}__ = R::lit(0, 1);");
+                let _ = writeln!(body, "acc{k}__ = acc{k}__ + item__;");
+                result = format!("acc{k}__");
+            }
+            "fold" => {
+                if m.args.len() != 2 {
+                    return false;
+                }
+                let init = self.render(&m.args[0]);
+                let _ = writeln!(pre, "let mut acc{k}__ = {init};");
+                let accn = format!("acc{k}__");
+                let st = self.apply_fn(&m.args[1], &[&accn, "item__"], &format!("next{k}__"));
+                let _ = writeln!(body, "{st} acc{k}__ = next{k}__;");
+                result = format!("acc{k}__");
+            }
+            "for_each" => {
+                if m.args.len() != 1 {
+                    return false;
+                }
+                let st = self.apply_fn(&m.args[0], &["item__"], "_unit__");
+                let _ = writeln!(body, "{st}");
+                result = "()".into();
+            }
+            "collect" => {
+                let _ = writeln!(pre, "let mut acc{k}__ = Vec::new();");
+                let _ = writeln!(body, "acc{k}__.push(item__);");
+                result = format!("acc{k}__");
+            }
+            _ => return false,
+        }
+        let (s, e) = range(m.span());
+        let text = format!("{{\n{pre}loop\n/*CHAIN-HINT {k}*/\n{{\n{body}/*CHAIN-END {k}*/\n}}\n{result}\n}}");
+        self.chain_log.push(norm(&self.src[s..e]));
+        self.push(s, e, text, "R8");
+        true
+    }
+}
+
 impl<'a, 'ast> Visit<'ast> for Collector<'a> {
     fn visit_attribute(&mut self, a: &'ast syn::Attribute) {
         self.remove_attr(a);
@@ -324,6 +556,9 @@ impl<'a, 'ast> Visit<'ast> for Collector<'a> {
         }
     }
     fn visit_expr_method_call(&mut self, m: &'ast syn::ExprMethodCall) {
+        if self.try_chain(m) {
+            return;
+        }
         let name = m.method.to_string();
         if name == "get_unchecked" || name == "get_unchecked_mut" {
             let (rs, re) = range(m.receiver.span());
@@ -381,6 +616,7 @@ struct Block {
     contract: Vec<String>,
     hints: Vec<(String, Vec<String>)>,
     replaces: Vec<(String, String)>,
+    srcs: Vec<(String, String)>,
     sig: Option<String>,
 }
 
@@ -572,7 +808,7 @@ fn extract(src: &Src, b: &Block, report: &mut Vec<serde_json::Value>, vacuity: b
         s0 = s0.min(range(a.span()).0);
     }
     let orig = text[s0..e0].to_string();
-    let mut col = Collector { src: text, ..Default::default() };
+    let mut col = Collector { src: text, srcmap: b.srcs.clone(), ..Default::default() };
     // R1 attributes on the item
     for a in f.attrs {
         let keep = keepderive && a.path().is_ident("derive");
@@ -741,6 +977,8 @@ fn extract(src: &Src, b: &Block, report: &mut Vec<serde_json::Value>, vacuity: b
                             _ => close.0,
                         };
                         col.push(at, at, format!("{txt}\t\t"), "H");
+                    } else if place.starts_with("chain ") || place.starts_with("chain-item ") || place.starts_with("chain-end ") || place.starts_with("chain-start ") {
+                        // handled after the edits are applied (the loop is generated by R8)
                     } else if place == "result" {
                         // RB: bind the tail expression to the return name so the proof text can mention it
                         let rn = ret_name.clone().unwrap_or_else(|| "r".into());
@@ -813,7 +1051,29 @@ fn extract(src: &Src, b: &Block, report: &mut Vec<serde_json::Value>, vacuity: b
     for e in &col.edits {
         *counts.entry(e.rule).or_default() += 1;
     }
-    let out = apply_edits(text, s0, e0, col.edits.clone())?;
+    for (k2, v2) in col.extra.iter() {
+        *counts.entry(*k2).or_default() += *v2;
+    }
+    let mut out = apply_edits(text, s0, e0, col.edits.clone())?;
+    for k in 0..col.chains {
+        for (kw, tag) in [("chain", "CHAIN-HINT"), ("chain-item", "CHAIN-ITEM"), ("chain-end", "CHAIN-END"), ("chain-start", "CHAIN-START")] {
+            let key = format!("{kw} {k}");
+            let ph = format!("/*{tag} {k}*/");
+            let txt = b.hints.iter().find(|(p, _)| *p == key).map(|(_, l)| format!("\t\t// >>H\n{}\t\t// <<H", indent(l, "\t\t"))).unwrap_or_default();
+            out = out.replace(&ph, &txt);
+        }
+    }
+    for (p, _) in &b.hints {
+        if let Some(k) = p.strip_prefix("chain ").or_else(|| p.strip_prefix("chain-item ")).or_else(|| p.strip_prefix("chain-end ")).or_else(|| p.strip_prefix("chain-start ")) {
+            let k: usize = k.trim().parse().map_err(|_| "bad chain ordinal")?;
+            if k >= col.chains {
+                return Err(format!("LOST-ANCHOR: chain {k} not found in {}", b.path));
+            }
+        }
+    }
+    for (i, c) in col.chain_log.iter().enumerate() {
+        manual.push(serde_json::json!({"rule": "R8", "chain": i, "original": c}));
+    }
     let ls = text[..s0].matches('\n').count() + 1;
     let le = text[..e0].matches('\n').count() + 1;
     if contract_only.is_some() && f.kind == "fn" {
@@ -968,6 +1228,9 @@ fn process_lines(lines: &[String], ctx: &Ctx, cache: &mut HashMap<String, Src>, 
                         to.push_str(c.strip_prefix(' ').unwrap_or(c));
                     }
                     b.replaces.push((from.trim().to_string(), to));
+                } else if let Some(r) = t2.strip_prefix("//@src ") {
+                    let (from, to) = r.split_once("==>").unwrap_or_else(|| die("//@src needs ==>"));
+                    b.srcs.push((nows(from), to.trim().to_string()));
                 } else if let Some(s) = t2.strip_prefix("//@sig ") {
                     b.sig = Some(s.trim().to_string());
                 } else if t2.starts_with("//@") {
